@@ -37,6 +37,9 @@ CONSTANTS Ops, NVals, NKeys, MaxLen, MaxT, H, Terms,
                      \* group's EXPIRY (its duration observable notified) by synchronously pushing one more element
                      \* (value rx.v) into the source: an element that arrives right after the expiry, at the same
                      \* instant, causally after it.  {0} = no feedback.  (timed durations only)
+          OuterOnly, \* TRUE (with Disposes): the subscriber may also dispose ONLY the subscription to the sequence of groups
+                     \*       (dmode = "outer") and keep its group subscriptions: no further group is handed out, but the
+                     \*       groups it holds stay live - the source is kept until the last of them ends
           Disposes   \* TRUE: the subscriber may dispose the result and every group subscription half a tick after
                      \*       instant dsp \in 0..MaxT (C03 dimension)
 
@@ -58,11 +61,11 @@ LastT(s)  == IF Len(s) = 0 THEN 1 ELSE s[Len(s)].t
 TermsOf(s) == {[k |-> kk, t |-> tt] : kk \in Terms \ {"U"}, tt \in LastT(s)..MaxT}
               \cup (IF "U" \in Terms THEN {[k |-> "U", t |-> INF]} ELSE {})
 
-VARIABLES op, par, src, term, dsp, rx, \* the scenario (dsp = INF: the subscriber never disposes; rx.g = 0: no feedback)
+VARIABLES op, par, src, term, dsp, dmode, rx, \* the scenario (dsp = INF: the subscriber never disposes; rx.g = 0: no feedback)
           abandon,                 \* free choice of the model (not part of the scenario)
           i, now, step, S, arr,
           seen                     \* ghost: the elements that reached the operator, in arrival order (source + feedback)
-vars == <<op, par, src, term, dsp, rx, abandon, i, now, step, S, arr, seen>>
+vars == <<op, par, src, term, dsp, dmode, rx, abandon, i, now, step, S, arr, seen>>
 
 (* ---- user functions ------------------------------------------------------------------------ *)
 IdTab   == [v \in Vals |-> v]
@@ -138,7 +141,8 @@ AbandonAll(Z, e, t, lt, bad) ==
             !.done = TRUE, !.bad = bad]
 Fail(Z, e, t, lt, bad) == IF abandon THEN AbandonAll(Z, e, t, lt, bad) ELSE EndAll(Z, "E", e, "fail", t, lt, bad)
 
-S0 == [grps |-> <<>>, live |-> <<>>, timers |-> {}, calls |-> 0, outer |-> <<>>, done |-> FALSE, bad |-> 0, disp |-> FALSE]
+S0 == [grps |-> <<>>, live |-> <<>>, timers |-> {}, calls |-> 0, outer |-> <<>>, done |-> FALSE, bad |-> 0, disp |-> FALSE,
+       odisp |-> FALSE, vis |-> 0]       \* odisp: only the outer subscription was disposed; groups 1..vis were handed out before
 InitS == IF IsPart THEN Open(Open(S0, 1, 0, 0), 0, 0, 0) ELSE S0
 
 (* ---- the transducer: the SET of allowed successor states ------------------------------------- *)
@@ -179,6 +183,7 @@ Init == /\ op \in Ops
         /\ term \in TermsOf(src)
         /\ par \in ParamsOf(op)
         /\ dsp \in (IF Disposes THEN 0..MaxT ELSE {}) \cup {INF}
+        /\ dmode \in (IF dsp # INF /\ OuterOnly /\ ~IsPart THEN {"all", "outer"} ELSE {"all"})
         /\ rx \in (IF op = "group_by_until" /\ par.dn = 0 THEN {[g |-> g, v |-> IF g = 0 THEN 0 ELSE v] : g \in RxG, v \in Vals}
                    ELSE {[g |-> 0, v |-> 0]})
         /\ abandon \in (IF HasFault THEN BOOLEAN ELSE {FALSE})
@@ -187,13 +192,17 @@ Init == /\ op \in Ops
 
 SrcDue == IF i <= Len(src) THEN src[i].t ELSE IF i = Len(src) + 1 THEN term.t ELSE INF
 MinDue == MinOf({SrcDue} \cup {x.due : x \in S.timers})
-Final  == S.done \/ MinDue > H
+\* after an outer-only dispose: is one of the groups the subscriber holds still live ?
+HeldLive(Z) == \E n \in 1..Len(Z.live) : Z.live[n] <= Z.vis
+\* ... if none is, the last reference is gone and the source is released: nothing more can be observed
+Final  == S.done \/ MinDue > H \/ (S.odisp /\ ~HeldLive(S))
 
-CanFire == ~Final /\ MinDue <= dsp
-Dispose == /\ ~Final /\ dsp < MinDue
-           /\ S' = [S EXCEPT !.done = TRUE, !.disp = TRUE, !.timers = {}]
+CanFire == ~Final /\ (MinDue <= dsp \/ S.odisp)
+Dispose == /\ ~Final /\ dsp < MinDue /\ ~S.odisp
+           /\ S' = IF dmode = "all" THEN [S EXCEPT !.done = TRUE, !.disp = TRUE, !.timers = {}]
+                    ELSE [S EXCEPT !.odisp = TRUE, !.vis = Len(S.grps)]
            /\ step' = step + 1
-           /\ UNCHANGED <<op, par, src, term, dsp, rx, abandon, i, now, arr, seen>>
+           /\ UNCHANGED <<op, par, src, term, dsp, dmode, rx, abandon, i, now, arr, seen>>
 
 FireSrc == /\ CanFire /\ SrcDue = MinDue
            /\ now' = MinDue /\ step' = step + 1 /\ i' = i + 1
@@ -203,7 +212,7 @@ FireSrc == /\ CanFire /\ SrcDue = MinDue
                    /\ seen' = Append(seen, [t |-> MinDue, v |-> src[i].v])
               ELSE /\ S' = EndAll(S, term.k, IF term.k = "E" THEN "src" ELSE "", "src", MinDue, 3 * (step + 1), 0)
                    /\ arr' = arr /\ seen' = seen
-           /\ UNCHANGED <<op, par, src, term, dsp, rx, abandon>>
+           /\ UNCHANGED <<op, par, src, term, dsp, dmode, rx, abandon>>
 
 FireTimer == /\ CanFire
              /\ \E x \in S.timers :
@@ -218,7 +227,7 @@ FireTimer == /\ CanFire
                           /\ step' = step + 2
                      ELSE S' = Z1 /\ arr' = arr /\ seen' = seen /\ step' = step + 1
              /\ now' = MinDue
-             /\ UNCHANGED <<op, par, src, term, dsp, rx, abandon, i>>
+             /\ UNCHANGED <<op, par, src, term, dsp, dmode, rx, abandon, i>>
 
 Next == FireSrc \/ FireTimer \/ Dispose
 Spec == Init /\ [][Next]_vars
@@ -275,12 +284,21 @@ TermOK == /\ (S.done /\ ~S.disp) => (S.live = <<>> /\ S.timers = {} /\ Len(S.out
           /\ IsPart => NG = 2
 
 SilentOK == /\ S.disp => (dsp # INF /\ now <= dsp)
-            /\ \A g \in 1..NG : S.grps[g].open <= dsp /\ \A q \in 1..Len(S.grps[g].out) : S.grps[g].out[q].t <= dsp
-            /\ \A q \in 1..Len(S.outer) : S.outer[q].t <= dsp
+            /\ ~S.odisp => /\ \A g \in 1..NG : S.grps[g].open <= dsp /\ \A q \in 1..Len(S.grps[g].out) : S.grps[g].out[q].t <= dsp
+                           /\ \A q \in 1..Len(S.outer) : S.outer[q].t <= dsp
+            \* outer-only dispose: the groups handed out are exactly those opened up to dsp; the result itself is silent
+            /\ S.odisp => /\ dmode = "outer" /\ ~S.disp
+                          /\ \A g \in 1..NG : (g <= S.vis) <=> (S.grps[g].open <= dsp)
+                          /\ \A q \in 1..Len(S.outer) : S.outer[q].t > dsp
+\* groups the subscriber can see, and the instant by which the source subscription must be closed after an
+\* outer-only dispose (Neg1: not within the horizon, or the source ended by itself)
+NVis == IF S.odisp THEN S.vis ELSE NG
+Neg1 == 0 - 1
+Unsub == IF S.odisp /\ ~S.done /\ ~HeldLive(S) THEN (IF now > dsp THEN now ELSE dsp) ELSE Neg1
 
 (* ---- export ------------------------------------------------------------------------------------- *)
 Export == Final => PrintT(ToJson(
-   [scn |-> [op |-> op, par |-> par, src |-> src, term |-> term, dsp |-> dsp, rx |-> rx],
-    obs |-> [grps |-> [g \in 1..NG |-> [key |-> S.grps[g].key, open |-> S.grps[g].open, out |-> S.grps[g].out]],
-             outer |-> S.outer, disp |-> S.disp]]))
+   [scn |-> [op |-> op, par |-> par, src |-> src, term |-> term, dsp |-> dsp, dmode |-> dmode, rx |-> rx],
+    obs |-> [grps |-> [g \in 1..NVis |-> [key |-> S.grps[g].key, open |-> S.grps[g].open, out |-> S.grps[g].out]],
+             outer |-> IF S.odisp THEN <<>> ELSE S.outer, disp |-> S.disp, odisp |-> S.odisp, unsub |-> Unsub]]))
 ================================================================================
